@@ -117,4 +117,55 @@ REGISTRY = {
             'contracts/runtime_prog.py external models (Connection, Queue)',
         ],
     },
+    'C05': {
+        'level': 'other',
+        'engine': 'pybound',
+        'technique': 'bounded check of a representation-invariant contract '
+                     '(WF + every read API against the raw grid) on the '
+                     'real Circuit methods',
+        'level_text': 'contract "WF circuit + one public editing call with '
+                      'any arguments => only ValueError/IndexError/TypeError '
+                      'may escape, WF holds afterwards and every read API '
+                      'agrees with the raw grid" checked on every small '
+                      'well-formed circuit; bounded stand-in, not a proof',
+        'level_note': 'bounded: every well-formed circuit over the stated alphabet on 2-3 qudits with <= 2 cycles (quick; the largest layer sampled with VERIF_SEED) / up to 4 qudits and 3 cycles (thorough, exhaustive) times every argument value incl. out-of-range and negative indices; histories follow by induction only while intermediate circuits stay inside the scope; no unbounded proof of the 100-line mutators',
+        'parts': [
+            {'kind': 'custom', 'module': 'pybound.circ_checks',
+             'func': 'run_c05'},
+        ],
+        'rule': 'pre-states: all grids whose cycles are non-empty sets of '
+                'disjoint operations over {X, RZ, CNOT in both orders on '
+                'every pair, Toffoli in three orders; mixed radix: constant '
+                'gates of matching radix}; calls: every public mutator with '
+                'every cycle index in [-(C+2), C+2], every point incl. one '
+                'out of range per axis, every region, every permutation; '
+                'non-trivial = the call was accepted (did not raise)',
+        'explanation': 'bounded stand-in for the representation-invariant '
+                       'contract of Circuit (WF preserved by every mutator, '
+                       'readers are functions of the abstract view); the '
+                       'oracle reads only the raw grid of the pre-state',
+    },
+    'C04': {
+        'level': 'other',
+        'engine': 'pybound',
+        'technique': 'bounded check of per-call contracts against the '
+                     'list-of-cycles (per-qudit timeline) reference model '
+                     'on the real Circuit methods',
+        'level_text': 'contract "the per-qudit timelines after the call are '
+                      'those the reference model computes from the pre-state '
+                      'grid and the arguments; structure-only calls keep '
+                      'the flattened timelines" checked on every small '
+                      'well-formed circuit; bounded stand-in, not a proof',
+        'level_note': 'bounded: every well-formed circuit over the stated alphabet on 2-3 qudits with <= 2 cycles (quick; the largest layer sampled with VERIF_SEED) / up to 4 qudits and 3 cycles (thorough, exhaustive) times every argument value incl. out-of-range and negative indices; histories follow by induction only while intermediate circuits stay inside the scope; no unbounded proof of the 100-line mutators',
+        'parts': [
+            {'kind': 'custom', 'module': 'pybound.circ_checks',
+             'func': 'run_c04'},
+        ],
+        'rule': 'same pre-states and calls as C05; non-trivial = the call '
+                'was accepted; equal per-qudit timelines imply the same set '
+                'of linear extensions hence the same unitary (stated lemma, '
+                'numeric identity is C06)',
+        'explanation': 'bounded stand-in for the editing contracts of '
+                       'Circuit against the timeline reference model',
+    },
 }
